@@ -602,7 +602,12 @@ class Extractor:
                         sect[cur_s].append(ln)
                 pieces.append(Piece(s0, s1, "\n" + "\n".join(sect["inv"]).rstrip("\n") + "\n{\n" + "\n".join(sect["start"]), "subst", old=orig[s0:s1], rule="R6"))
                 s0, s1 = toks[bc].start - base, toks[pc + 1].end - base
-                pieces.append(Piece(s0, s1, "\n".join(sect["end"]) + "\n}", "subst", old=orig[s0:s1], rule="R6"))
+                # a block body that ends in a tail expression (of type ()) needs its `;` once something follows it
+                lastt = bc - 1
+                while toks[lastt].kind in ("comment", "doc"):
+                    lastt -= 1
+                semi = "" if toks[lastt].text in (";", "}", "{") else ";"
+                pieces.append(Piece(s0, s1, semi + "\n" + "\n".join(sect["end"]) + "\n}", "subst", old=orig[s0:s1], rule="R6"))
                 bump("R6")
                 line = src.text.count("\n", 0, toks[k].start) + 1
                 self.lifts.append("%s:%d R10 `X.for_each(|%s| {..});` -> `for %s in X {..}`" % (rel, line, pat, pat))
